@@ -62,6 +62,10 @@ class GameIO:
         """'' if the in-memory object lies in the writer property's quantifier domain."""
         return ""
 
+    def valid_doc(self, doc) -> str:
+        """'' if a generated document lies in the reader property's dialect (guards the shrinker)."""
+        return ""
+
 
 IO: dict[str, GameIO] = {}
 
@@ -145,6 +149,9 @@ class FsInstall(OpSpec):
         if "bytes" in op:
             data = op["bytes"]
         else:
+            why = g.valid_doc(op["doc"])
+            if why:
+                raise HarnessError(f"generated {op['game']} document outside the dialect: {why}")
             data = g.render(op["doc"], op.get("fmt") or {})
         fs.files[op["path"]] = data
         fs.tainted.discard(op["path"])
@@ -387,3 +394,4 @@ def twin_write(sess, game, A, B, op):
 
 from . import files_osu  # noqa: E402,F401
 from . import files_qua  # noqa: E402,F401
+from . import files_sm  # noqa: E402,F401
